@@ -99,9 +99,13 @@ fn parse_witnesses() -> Vec<(&'static str, &'static str, Vec<u8>, String)> {
             format!("re:{}:{}:{}:{};c:{}:{}:{}:{}:{}:{}", bits(7.0), bits(8.0), bits(1.0), bits(1.0), bits(7.0), bits(8.0), bits(5.0), bits(5.0), bits(6.0), bits(7.0))),
         ("inline image whose data ends with LF", "inline-image:data-with-LF", b"q BI /W 2 /H 1 /BPC 8 /CS /G ID x\n\nEI Q\n".to_vec(), format!("q;{};Q", img(2, 1, b'x'))),
         ("inline image whose data contains LF E", "inline-image:data-with-LF", b"q BI /W 3 /H 1 /BPC 8 /CS /G ID x\nE\nEI Q\n".to_vec(), format!("q;{};Q", img(3, 1, b'x'))),
-        // open finding: the reader only accepts EI after a line feed
+        // formerly the open finding inline-image:EI-not-after-LF (the reader only accepted EI after a line feed)
         ("inline image with EI after a space", "inline-image:EI-not-after-LF", b"q BI /W 1 /H 1 /BPC 8 /CS /G ID A EI Q\n".to_vec(), format!("q;{};Q", img(1, 1, b'A'))),
         ("inline image with EI after CR", "inline-image:EI-not-after-LF", b"q BI /W 1 /H 1 /BPC 8 /CS /G ID A\rEI Q\n".to_vec(), format!("q;{};Q", img(1, 1, b'A'))),
+        ("two inline images with EI after a space: the first does not swallow the second", "inline-image:EI-not-after-LF",
+            b"BI /W 1 /H 1 /BPC 8 /CS /G ID A EI q BI /W 1 /H 1 /BPC 8 /CS /G ID B\nEI Q\n".to_vec(), format!("{};q;{};Q", img(1, 1, b'A'), img(1, 1, b'B'))),
+        ("EI inside a longer word is image data", "inline-image:EI-in-word", b"BI /W 5 /H 1 /BPC 8 /CS /G ID A EIy\nEI Q\n".to_vec(), format!("{};Q", img(5, 1, b'A'))),
+        ("EI at the very end of the data", "inline-image:EI-at-end", b"q BI /W 1 /H 1 /BPC 8 /CS /G ID A EI".to_vec(), format!("q;{}", img(1, 1, b'A'))),
     ]
 }
 
